@@ -31,14 +31,39 @@ def with_lock_attr(w: ast.With, recv="self"):
     return out
 
 
+def _acquire_try_attr(t: ast.Try, lockattrs):
+    """`self.L.acquire()` immediately followed by `try: … finally: self.L.release()` — returns L or None"""
+    q = parent(t)
+    for fld in ("body", "orelse", "finalbody"):
+        b = getattr(q, fld, None)
+        if isinstance(b, list) and t in b:
+            i = b.index(t)
+            if i == 0:
+                return None
+            prev = b[i - 1]
+            if isinstance(prev, ast.Expr) and isinstance(prev.value, ast.Call) and isinstance(prev.value.func, ast.Attribute) and prev.value.func.attr == "acquire" \
+                    and is_self_attr(prev.value.func.value) and prev.value.func.value.attr in lockattrs:
+                attr = prev.value.func.value.attr
+                for st in t.finalbody:
+                    for c in ast.walk(st):
+                        if isinstance(c, ast.Call) and isinstance(c.func, ast.Attribute) and c.func.attr == "release" and is_self_attr(c.func.value, attr):
+                            return attr
+    return None
+
+
 def regions(fi: FuncInfo, lockattrs):
-    """[(With node, attr)] for with-regions on the class's own locks"""
+    """[(region node, attr)] for critical sections on the class's own locks: `with self.L:` and
+    `self.L.acquire(); try: … finally: self.L.release()` (the region node has a .body either way)"""
     out = []
     for n in walk_no_nested(fi.node):
         if isinstance(n, ast.With):
             for a in with_lock_attr(n):
                 if a in lockattrs:
                     out.append((n, a))
+        elif isinstance(n, ast.Try) and n.finalbody:
+            a = _acquire_try_attr(n, lockattrs)
+            if a:
+                out.append((n, a))
     return out
 
 
@@ -52,6 +77,10 @@ def held_at(node, lockattrs):
             for a in with_lock_attr(q):
                 if a in lockattrs:
                     held.add(a)
+        if isinstance(q, ast.Try) and q.finalbody and (prev in q.body or prev in q.handlers or prev in q.orelse):
+            a = _acquire_try_attr(q, lockattrs)
+            if a:
+                held.add(a)
         prev = q
         q = parent(q)
     return held
